@@ -11,7 +11,8 @@ open DepsDev.Resolve
   resolve t=<hex>,<hex>,…  <U>  root=<name>@<ver>  fuel=<n>
       → `ok N=… E=… T=…` | `err` | `timeout` | `bad-universe`
   classify t=…  <U>
-      → `ok wf=<b> aliasfree=<b> latestlast=<b> optplain=<b> bundlefree=<b>`: the hypotheses of the
+      → `ok wf=<b> aliasfree=<b> latestlast=<b> optplain=<b> bundlefree=<b> conflictcycle=<b…>` (one bit per `v:` record: the root
+        `v` reaches a conflict cycle): the hypotheses of the
         theorems of `Props/C06.lean`, evaluated by their own decision procedures (the harness's
         known-finding classifier must agree)
 
@@ -214,7 +215,8 @@ def classify (us : String) : String :=
   | some u =>
     s!"ok wf={bit (decide (Props.C06.WF u))} aliasfree={bit (decide (Props.C06.AliasFree u))} " ++
     s!"latestlast={bit (decide (Props.C06.LatestLast u))} optplain={bit (decide (Props.C06.OptPlain u))} " ++
-    s!"bundlefree={bit (!hasBundles u)}"
+    s!"bundlefree={bit (!hasBundles u)} conflictcycle=" ++
+    String.join (u.versions.map fun e => bit (Props.C06.conflictCycleFrom u e.1.name e.1.version))
 
 def handle : List String → String
   | ["classify", _t, us] => classify us
